@@ -1104,7 +1104,8 @@ CMR_ERROR CMRdblmatCreateFromSparseStream(CMR* cmr, FILE* stream, CMR_DBLMAT** p
   /* Read all nonzeros. */
 
   DblNonzero* nonzeros = NULL;
-  CMR_CALL( CMRallocStackArray(cmr, &nonzeros, numNonzeros) );
+  size_t memNonzeros = 256; /* Grows on demand since the announced number may exceed the actual data. */
+  CMR_CALL( CMRallocBlockArray(cmr, &nonzeros, memNonzeros) );
   size_t entry = 0;
   for (size_t i = 0; i < numNonzeros; ++i)
   {
@@ -1114,7 +1115,7 @@ CMR_ERROR CMRdblmatCreateFromSparseStream(CMR* cmr, FILE* stream, CMR_DBLMAT** p
     numRead = fscanf(stream, "%zu %zu %lf", &row, &column, &value);
     if (numRead < 3 || row == 0 || column == 0 || row > numRows || column > numColumns)
     {
-      CMR_CALL( CMRfreeStackArray(cmr, &nonzeros) );
+      CMR_CALL( CMRfreeBlockArray(cmr, &nonzeros) );
       if (numRead == 2)
         CMRraiseErrorMessage(cmr, "Could not read a double value of nonzero #%zu.", entry);
       else
@@ -1123,6 +1124,11 @@ CMR_ERROR CMRdblmatCreateFromSparseStream(CMR* cmr, FILE* stream, CMR_DBLMAT** p
     }
     if (value != 0.0)
     {
+      if (entry == memNonzeros)
+      {
+        memNonzeros *= 2;
+        CMR_CALL( CMRreallocBlockArray(cmr, &nonzeros, memNonzeros) );
+      }
       nonzeros[entry].row = row - 1;
       nonzeros[entry].column = column - 1;
       nonzeros[entry].value = value;
@@ -1147,7 +1153,7 @@ CMR_ERROR CMRdblmatCreateFromSparseStream(CMR* cmr, FILE* stream, CMR_DBLMAT** p
     if (row == previousRow && column == previousColumn)
     {
       CMRraiseErrorMessage(cmr, "Duplicate nonzero at row %zu and column %zu.", row, column);
-      CMR_CALL( CMRfreeStackArray(cmr, &nonzeros) );
+      CMR_CALL( CMRfreeBlockArray(cmr, &nonzeros) );
       CMR_CALL( CMRdblmatFree(cmr, presult) );
       return CMR_ERROR_INPUT;
     }
@@ -1166,7 +1172,7 @@ CMR_ERROR CMRdblmatCreateFromSparseStream(CMR* cmr, FILE* stream, CMR_DBLMAT** p
     result->rowSlice[previousRow] = numNonzeros;
   }
 
-  CMR_CALL( CMRfreeStackArray(cmr, &nonzeros) );
+  CMR_CALL( CMRfreeBlockArray(cmr, &nonzeros) );
 
   return CMR_OKAY;
 }
@@ -1214,7 +1220,8 @@ CMR_ERROR CMRintmatCreateFromSparseStream(CMR* cmr, FILE* stream, CMR_INTMAT** p
   /* Read all nonzeros. */
 
   IntNonzero* nonzeros = NULL;
-  CMR_CALL( CMRallocStackArray(cmr, &nonzeros, numNonzeros) );
+  size_t memNonzeros = 256; /* Grows on demand since the announced number may exceed the actual data. */
+  CMR_CALL( CMRallocBlockArray(cmr, &nonzeros, memNonzeros) );
   size_t entry = 0;
   for (size_t i = 0; i < numNonzeros; ++i)
   {
@@ -1225,7 +1232,7 @@ CMR_ERROR CMRintmatCreateFromSparseStream(CMR* cmr, FILE* stream, CMR_INTMAT** p
     if (numRead < 3 || row == 0 || column == 0 || row > numRows || column > numColumns || value < INT_MIN
       || value > INT_MAX)
     {
-      CMR_CALL( CMRfreeStackArray(cmr, &nonzeros) );
+      CMR_CALL( CMRfreeBlockArray(cmr, &nonzeros) );
       if (numRead == 2)
         CMRraiseErrorMessage(cmr, "Could not read an integer value of nonzero #%zu.", entry);
       else
@@ -1234,6 +1241,11 @@ CMR_ERROR CMRintmatCreateFromSparseStream(CMR* cmr, FILE* stream, CMR_INTMAT** p
     }
     if (value != 0)
     {
+      if (entry == memNonzeros)
+      {
+        memNonzeros *= 2;
+        CMR_CALL( CMRreallocBlockArray(cmr, &nonzeros, memNonzeros) );
+      }
       nonzeros[entry].row = row - 1;
       nonzeros[entry].column = column - 1;
       nonzeros[entry].value = value;
@@ -1258,7 +1270,7 @@ CMR_ERROR CMRintmatCreateFromSparseStream(CMR* cmr, FILE* stream, CMR_INTMAT** p
     if (row == previousRow && column == previousColumn)
     {
       CMRraiseErrorMessage(cmr, "Duplicate nonzero at row %zu and column %zu.", row, column);
-      CMR_CALL( CMRfreeStackArray(cmr, &nonzeros) );
+      CMR_CALL( CMRfreeBlockArray(cmr, &nonzeros) );
       CMR_CALL( CMRintmatFree(cmr, presult) );
       return CMR_ERROR_INPUT;
     }
@@ -1277,7 +1289,7 @@ CMR_ERROR CMRintmatCreateFromSparseStream(CMR* cmr, FILE* stream, CMR_INTMAT** p
     result->rowSlice[previousRow] = numNonzeros;
   }
 
-  CMR_CALL( CMRfreeStackArray(cmr, &nonzeros) );
+  CMR_CALL( CMRfreeBlockArray(cmr, &nonzeros) );
 
   return CMR_OKAY;
 }
@@ -1325,7 +1337,8 @@ CMR_ERROR CMRchrmatCreateFromSparseStream(CMR* cmr, FILE* stream, CMR_CHRMAT** p
   /* Read all nonzeros. */
 
   ChrNonzero* nonzeros = NULL;
-  CMR_CALL( CMRallocStackArray(cmr, &nonzeros, numNonzeros) );
+  size_t memNonzeros = 256; /* Grows on demand since the announced number may exceed the actual data. */
+  CMR_CALL( CMRallocBlockArray(cmr, &nonzeros, memNonzeros) );
   size_t entry = 0;
   for (size_t i = 0; i < numNonzeros; ++i)
   {
@@ -1336,7 +1349,7 @@ CMR_ERROR CMRchrmatCreateFromSparseStream(CMR* cmr, FILE* stream, CMR_CHRMAT** p
     if (numRead < 3 || row == 0 || column == 0 || row > numRows || column > numColumns || value < SCHAR_MIN
       || value > SCHAR_MAX)
     {
-      CMR_CALL( CMRfreeStackArray(cmr, &nonzeros) );
+      CMR_CALL( CMRfreeBlockArray(cmr, &nonzeros) );
       if (numRead == 2)
         CMRraiseErrorMessage(cmr, "Could not read an integer value of nonzero #%zu.", entry);
       else if (numRead == 3 && (value < SCHAR_MIN || value > SCHAR_MAX))
@@ -1347,6 +1360,11 @@ CMR_ERROR CMRchrmatCreateFromSparseStream(CMR* cmr, FILE* stream, CMR_CHRMAT** p
     }
     if (value != 0)
     {
+      if (entry == memNonzeros)
+      {
+        memNonzeros *= 2;
+        CMR_CALL( CMRreallocBlockArray(cmr, &nonzeros, memNonzeros) );
+      }
       nonzeros[entry].row = row - 1;
       nonzeros[entry].column = column - 1;
       nonzeros[entry].value = value;
@@ -1371,7 +1389,7 @@ CMR_ERROR CMRchrmatCreateFromSparseStream(CMR* cmr, FILE* stream, CMR_CHRMAT** p
     if (row == previousRow && column == previousColumn)
     {
       CMRraiseErrorMessage(cmr, "Duplicate nonzero at row %zu and column %zu.", row, column);
-      CMR_CALL( CMRfreeStackArray(cmr, &nonzeros) );
+      CMR_CALL( CMRfreeBlockArray(cmr, &nonzeros) );
       CMR_CALL( CMRchrmatFree(cmr, presult) );
       return CMR_ERROR_INPUT;
     }
@@ -1390,7 +1408,7 @@ CMR_ERROR CMRchrmatCreateFromSparseStream(CMR* cmr, FILE* stream, CMR_CHRMAT** p
     result->rowSlice[previousRow] = numNonzeros;
   }
 
-  CMR_CALL( CMRfreeStackArray(cmr, &nonzeros) );
+  CMR_CALL( CMRfreeBlockArray(cmr, &nonzeros) );
 
   return CMR_OKAY;
 }
